@@ -1774,7 +1774,7 @@ Theorem parse_write_roundtrip_facts :
 Proof.
   destruct project_keys_facts as (pt & Hpk & Hpnd & Hps & Hpcov).
   destruct vote_keys_facts as (vt0 & Hvk & Hvnd & Hvs & Hvcov).
-  unfold parse_rows, write_rows.
+  rewrite parse_rows_spec. unfold write_rows.
   fold (project_keys show_num e). fold (vote_keys show_num show_nat e).
   set (pkeys := project_keys show_num e) in *. set (vkeys := vote_keys show_num show_nat e) in *.
   cbn [app].
@@ -2762,5 +2762,198 @@ Proof.
   exists (canon show_num show_nat e1). split; [apply parse_write_roundtrip, canon_wf; exact H|].
   apply canon_idempotent_facts, wf_election_facts, H.
 Qed.
+
+(* ============================================================================================ *)
+(* G. no line break in the strings of the election => none in the written rows                     *)
+(* ============================================================================================ *)
+Section NoLinebreak.
+Hypothesis show_num_nolb : forall q, nolb (show_num q) = true.
+Hypothesis show_nat_nolb : forall n, nolb (show_nat n) = true.
+
+Lemma nolb_iff s : nolb s = true <-> no_linebreak s.
+Proof.
+  unfold nolb, no_linebreak. rewrite forallb_forall, Forall_forall.
+  split; intros H c Hc; specialize (H c Hc); destruct (is_linebreak c); simpl in *; congruence.
+Qed.
+
+Definition okkv (kv : str * str) : Prop := nolb (fst kv) = true /\ nolb (snd kv) = true.
+
+Lemma nolb_join l : Forall (fun x => nolb x = true) l -> nolb (join_with c_comma l) = true.
+Proof.
+  intros H. apply nolb_iff. apply no_linebreak_join_with; [reflexivity|].
+  eapply Forall_impl; [|exact H]. intros x. apply nolb_iff.
+Qed.
+
+Lemma in_dict_strings d kv : In kv d -> In (fst kv) (dict_strings d) /\ In (snd kv) (dict_strings d).
+Proof.
+  intros H. unfold dict_strings. split; apply in_flat_map; exists kv; (split; [exact H|simpl; tauto]).
+Qed.
+
+Variable e : election.
+Hypothesis W : wf_facts e.
+Hypothesis Hlb : no_linebreak_election e = true.
+
+Lemma lb_str s : In s (election_strings e) -> nolb s = true.
+Proof. unfold no_linebreak_election in Hlb. rewrite forallb_forall in Hlb. apply Hlb. Qed.
+
+Lemma lb_meta kv : In kv (e_meta e) -> okkv kv.
+Proof.
+  intros H. destruct (in_dict_strings _ _ H) as (H1 & H2).
+  split; apply lb_str; unfold election_strings; apply in_or_app; left; assumption.
+Qed.
+
+Lemma lb_project_str p s :
+  In p (e_projects e) -> In s (p_name p :: p_cats p ++ p_targets p ++ dict_strings (p_meta p)) -> nolb s = true.
+Proof.
+  intros Hp Hs. apply lb_str. unfold election_strings. apply in_or_app. right. apply in_or_app. left.
+  apply in_flat_map. exists p. split; assumption.
+Qed.
+
+Lemma lb_ballot_meta b kv : In b (e_ballots e) -> In kv (b_meta b) -> okkv kv.
+Proof.
+  intros Hb H. destruct (in_dict_strings _ _ H) as (H1 & H2).
+  split; apply lb_str; unfold election_strings; apply in_or_app; right; apply in_or_app; right;
+    apply in_flat_map; exists b; (split; assumption).
+Qed.
+
+Lemma lb_im_value k v : lookup k (e_meta e) = Some v -> nolb v = true.
+Proof. intros H. apply lookup_In in H. apply (lb_meta _ H). Qed.
+
+Lemma lb_mand k : nolb ($"Auto-filled " ++ k) = true -> nolb (mandatory_value (e_meta e) k) = true.
+Proof. intros H. unfold mandatory_value. destruct (lookup k (e_meta e)) eqn:E; [eapply lb_im_value; eauto|exact H]. Qed.
+
+Lemma lb_nat_slot o v : PabulibM.nat_slot show_nat o = Some v -> nolb v = true.
+Proof. destruct o as [[|n]|]; simpl; try discriminate. intros [= <-]. apply show_nat_nolb. Qed.
+
+Lemma lb_num_slot o v : PabulibM.num_slot show_num o = Some v -> nolb v = true.
+Proof. destruct o as [q|]; simpl; [|discriminate]. destruct (Qzero_b q); [discriminate|]. intros [= <-]. apply show_num_nolb. Qed.
+
+Lemma lb_slots k v : In (k, Some v) (slots e) -> nolb v = true.
+Proof.
+  unfold PabulibM.slots, type_slots. intros H. apply in_app_or in H as [H|H].
+  - cbn [In] in H.
+    repeat (destruct H as [H|H];
+      [injection H as _ Hv;
+       first [ rewrite <- Hv;
+               first [ apply lb_mand; reflexivity | apply show_nat_nolb | apply show_num_nolb
+                     | destruct (e_vtype e); reflexivity ]
+             | eapply lb_im_value; exact Hv
+             | eapply lb_nat_slot; exact Hv ] |]).
+    destruct H.
+  - destruct (e_vtype e); cbn [In] in H;
+    repeat (destruct H as [H|H];
+      [injection H as _ Hv; first [ eapply lb_num_slot; exact Hv | eapply lb_im_value; exact Hv ] |]);
+    destruct H.
+Qed.
+
+Lemma slot_keys_nolb vt : forallb nolb (slot_keys vt) = true.
+Proof. destruct vt; reflexivity. Qed.
+
+Lemma lb_write_meta : Forall okkv (write_meta e).
+Proof.
+  unfold PabulibM.write_meta. rewrite put_rest_fold.
+  destruct (vd_fold_spec (e_meta e) (compact (slots e))) as [(t & Ht & Hin) _]. rewrite Ht.
+  apply Forall_app. split.
+  - apply Forall_forall. intros [k v] Hkv. pose proof (In_compact _ _ _ Hkv) as Hs. split; simpl.
+    + assert (Hk : In k (slot_keys (e_vtype e))) by (rewrite <- slots_keys; apply (in_map fst) in Hs; exact Hs).
+      pose proof (slot_keys_nolb (e_vtype e)) as Hok. rewrite forallb_forall in Hok. apply Hok, Hk.
+    + eapply lb_slots; eauto.
+  - apply Forall_forall. intros kv Hkv. apply lb_meta, Hin, Hkv.
+Qed.
+
+Lemma lb_project_dict p : In p (e_projects e) -> Forall okkv (project_dict p).
+Proof.
+  intros Hp.
+  assert (Hname : nolb (p_name p) = true) by (apply (lb_project_str p _ Hp); left; reflexivity).
+  assert (Hcats : Forall (fun x => nolb x = true) (p_cats p)).
+  { apply Forall_forall. intros x Hx. apply (lb_project_str p _ Hp). right. apply in_or_app. left; exact Hx. }
+  assert (Htg : Forall (fun x => nolb x = true) (p_targets p)).
+  { apply Forall_forall. intros x Hx. apply (lb_project_str p _ Hp). right. apply in_or_app. right.
+    apply in_or_app. left; exact Hx. }
+  assert (Hmeta : forall kv, In kv (p_meta p) -> okkv kv).
+  { intros kv Hkv. destruct (in_dict_strings _ _ Hkv) as (H1 & H2).
+    split; apply (lb_project_str p _ Hp); right; apply in_or_app; right; apply in_or_app; right; assumption. }
+  rewrite project_dict_unfold. destruct (pd_fold_spec (p_meta p) (pd_base p)) as [(t & Ht & Hin) _]. rewrite Ht.
+  apply Forall_app. split.
+  - unfold pd_base.
+    destruct (lookup K_name (p_meta p)) as [v|] eqn:E1; destruct (p_cats p) as [|c cs] eqn:E2;
+      destruct (p_targets p) as [|g gs] eqn:E3; cbn [app];
+      repeat (apply Forall_cons); try apply Forall_nil;
+      try (split; [reflexivity|]; cbn [snd]);
+      try exact Hname; try apply show_num_nolb;
+      try (apply lookup_In in E1; apply (Hmeta _ E1));
+      try (apply nolb_join; assumption).
+  - apply Forall_forall. intros kv Hkv. apply Hmeta. apply Hin. exact Hkv.
+Qed.
+
+Lemma lb_vote_dict i b : In b (e_ballots e) -> Forall okkv (vote_dict (e_vtype e) i b).
+Proof.
+  intros Hb. pose proof (wf_ballot_inv _ _ _ (wf_ballots e W b Hb)) as (_ & Hsub & _).
+  assert (Hmeta : forall kv, In kv (b_meta b) -> okkv kv) by (intros kv; apply lb_ballot_meta; exact Hb).
+  assert (Hvote : nolb (join_with c_comma (b_projects b)) = true).
+  { apply nolb_join. apply Forall_forall. intros n Hn. apply Hsub in Hn. apply in_map_iff in Hn as (p & <- & Hp).
+    apply (lb_project_str p _ Hp). left; reflexivity. }
+  assert (Hpts : nolb (join_with c_comma (map show_num (b_points b))) = true).
+  { apply nolb_join. apply Forall_forall. intros x Hx. apply in_map_iff in Hx as (q & <- & _). apply show_num_nolb. }
+  assert (Hid : nolb (match lookup K_voter_id (b_meta b) with Some v => v | None => show_nat i end) = true).
+  { destruct (lookup K_voter_id (b_meta b)) eqn:E; [apply lookup_In in E; apply (Hmeta _ E)|apply show_nat_nolb]. }
+  rewrite vote_dict_unfold. destruct (vd_fold_spec (b_meta b) (vd_base (e_vtype e) i b)) as [(t & Ht & Hin) _].
+  rewrite Ht. apply Forall_app. split.
+  - unfold vd_base.
+    destruct (lookup $"age" (b_meta b)) as [v1|] eqn:E1;
+      destruct (lookup $"sex" (b_meta b)) as [v2|] eqn:E2;
+      destruct (lookup $"voting_method" (b_meta b)) as [v3|] eqn:E3;
+      destruct (is_cardinal (e_vtype e)); cbn [app];
+      repeat (apply Forall_cons); try apply Forall_nil;
+      try (split; [reflexivity|]; cbn [snd]);
+      try exact Hid; try exact Hvote; try exact Hpts;
+      try (apply lookup_In in E1; apply (Hmeta _ E1));
+      try (apply lookup_In in E2; apply (Hmeta _ E2));
+      try (apply lookup_In in E3; apply (Hmeta _ E3)).
+  - apply Forall_forall. intros kv Hkv. apply Hmeta. apply Hin. exact Hkv.
+Qed.
+
+Lemma lb_row_of ks d : Forall okkv d -> Forall no_linebreak (row_of ks d).
+Proof.
+  intros Hd. unfold row_of. apply Forall_forall. intros c Hc. apply in_map_iff in Hc as (k & <- & _).
+  destruct (lookup k d) as [v|] eqn:E.
+  - apply lookup_In in E. rewrite Forall_forall in Hd. apply nolb_iff. apply (Hd _ E).
+  - apply nolb_iff. reflexivity.
+Qed.
+
+Lemma lb_keys (ds : list dict) ks0 :
+  Forall (fun k => nolb k = true) ks0 -> Forall (Forall okkv) ds ->
+  Forall no_linebreak (fold_left add_keys ds ks0).
+Proof.
+  intros H0 Hds. destruct (fold_add_keys_spec ds ks0) as (_ & _ & Hin).
+  apply Forall_forall. intros k Hk. apply nolb_iff. apply Hin in Hk as [Hk|(d & Hd & Hk)].
+  - rewrite Forall_forall in H0. apply H0, Hk.
+  - rewrite Forall_forall in Hds. specialize (Hds d Hd). unfold keys in Hk.
+    apply in_map_iff in Hk as ([k' v] & <- & Hkv). rewrite Forall_forall in Hds. apply (Hds _ Hkv).
+Qed.
+
+Theorem write_rows_no_linebreak : rows_no_linebreak (write_rows show_num show_nat e).
+Proof.
+  assert (Hpds : Forall (Forall okkv) (map project_dict (e_projects e))).
+  { apply Forall_forall. intros d Hd. apply in_map_iff in Hd as (p & <- & Hp). apply lb_project_dict, Hp. }
+  assert (Hvds : Forall (Forall okkv) (map fst (vote_dicts show_num show_nat (e_vtype e) 0 (e_ballots e)))).
+  { apply Forall_forall. intros d Hd. apply in_vote_dicts in Hd as (j & b & Hb & ->). apply lb_vote_dict, Hb. }
+  unfold rows_no_linebreak, write_rows.
+  repeat (apply Forall_app; split).
+  - repeat constructor; apply nolb_iff; reflexivity.
+  - apply Forall_forall. intros r Hr. apply in_map_iff in Hr as (kv & <- & Hkv).
+    pose proof lb_write_meta as Hm. rewrite Forall_forall in Hm. destruct (Hm _ Hkv) as (A & B).
+    repeat constructor; apply nolb_iff; assumption.
+  - constructor; [repeat constructor; apply nolb_iff; reflexivity|]. constructor; [|constructor].
+    apply lb_keys; [repeat constructor|exact Hpds].
+  - apply Forall_forall. intros r Hr. apply in_map_iff in Hr as (d & <- & Hd).
+    apply lb_row_of. rewrite Forall_forall in Hpds. apply Hpds, Hd.
+  - constructor; [repeat constructor; apply nolb_iff; reflexivity|]. constructor; [|constructor].
+    apply lb_keys; [repeat constructor|exact Hvds].
+  - apply Forall_forall. intros r Hr. apply in_flat_map in Hr as ([d m] & Hdm & Hr). apply repeat_spec in Hr. subst r.
+    apply lb_row_of. rewrite Forall_forall in Hvds. apply Hvds. apply (in_map fst) in Hdm. exact Hdm.
+Qed.
+
+End NoLinebreak.
 
 End RoundTrip.
